@@ -4,6 +4,7 @@ partition (C04), and the state an estimation leaves / what it reports (C07, prof
 from __future__ import annotations
 
 import math
+import os
 import random
 
 from .. import specs, ref
@@ -89,7 +90,7 @@ def make_ops(rng, cfg, profile, tier):
         elif r < 0.81:
             ops.append({'op': 'SPLIT_PARTS', 'a': [rng.randrange(2, 6), rng.randrange(1 << 16) % 5, rng.random() < 0.3]})
         elif r < 0.815:
-            ops.append({'op': rng.choice(['EXTRACT_PARTS', 'ROW_PARTS', 'FD_HESSIAN', 'REMOVE_REBUILD']),
+            ops.append({'op': rng.choice(['EXTRACT_PARTS', 'ROW_PARTS', 'FD_HESSIAN', 'REMOVE_REBUILD', 'MC_SUM']),
                         'a': [rng.randrange(2, 5), rng.randrange(1 << 16) % 5]})
         elif r < 0.82:
             ops.append({'op': 'ALIAS', 'a': [rng.randrange(64), rng.randrange(1 << 16) % 5, rng.randrange(1 << 16) % 5]})
@@ -506,6 +507,36 @@ class Session:
                           rows, oracle='I04.sim')
                 ctx.probe('object built after rows were removed from a Database that already served an object')
                 ctx.log(kind, len(keep_t))
+        elif kind == 'MC_SUM':
+            # a simulated (Monte-Carlo) likelihood: the log likelihood of the object is the weighted sum of what its
+            # simulation reports per observation, before and after the first simulation (one set of draws per object)
+            import biogeme.biogeme as bio
+            import biogeme.database as db
+            import biogeme.expressions as ex
+            T, xs = a
+            mb = ex.Beta('mc_b', 0.3, None, None, 0)
+            ms = ex.Beta('mc_s', 0.5, None, None, 0)
+            dev = mb + ms * ex.bioDraws('mc_eta', 'NORMAL') - ex.Variable('x0')
+            f = ex.log(ex.MonteCarlo(ex.exp(-(dev * dev))))
+            p = self._params(T)
+            p.set_value('number_of_draws', 5)
+            p.set_value('seed', 1 + xs)
+            forms = {'log_like': f}
+            wts = [1.0] * len(self.table)
+            if self.cfg.get('weight') and not self.cfg.get('panel'):
+                forms['weight'] = ex.Variable('w')
+                wts = [float(v) for v in self.table['w'].to_list()]
+            B = bio.BIOGEME(db.Database('mc', self.table.copy()), forms, parameters=p)
+            pt = [0.3 + 0.1 * xs, 0.5]
+            l1 = float(B.calculate_likelihood(pt, scaled=False))
+            sim = B.simulate({'mc_b': pt[0], 'mc_s': pt[1]})
+            tot = sum(w_ * float(v_) for w_, v_ in zip(wts, sim['log_like'].to_list()))
+            l2 = float(B.calculate_likelihood(pt, scaled=False))
+            self._cmp('simulated likelihood: log likelihood before the first simulation vs the weighted sum of the simulated values',
+                      l1, tot, oracle='I04.sim')
+            self._cmp('simulated likelihood: log likelihood after the simulation vs before', l2, l1, oracle='I04.sim')
+            ctx.probe('Monte-Carlo likelihood compared with its simulation')
+            ctx.log(kind, T, fhex(l1))
         elif kind == 'FD_HESSIAN':
             # the finite-difference Hessian of the (unscaled) log likelihood approximates the analytical one
             rec = self.objects[a[0] % len(self.objects)] if self.objects else self.make_object(1, None)
@@ -624,8 +655,23 @@ class Session:
                 v = e.get_value_c(database=db.Database('u', rec['table'].copy()), aggregation=True, prepare_ids=True)
                 self._cmp('unrelated evaluation', v, sum(2 * float(z) + 0.5 for z in rec['table']['x0']), oracle='I04.null')
             elif kind == 'H_QUICK':
+                # a full quick estimation while iterations are saved, then one that is stopped early from a poor start on
+                # the same object: what it reports is the likelihood at the estimates IT returns
                 b.biogeme_parameters.set_value('optimization_algorithm', 'simple_bounds')
+                b.biogeme_parameters.set_value('save_iterations', True)
                 b.quick_estimate()
+                b.change_init_values({n_: 1.5 + 0.25 * i_ for i_, n_ in enumerate(self.names)})
+                b.biogeme_parameters.set_value('max_iterations', 1)
+                r_ = b.quick_estimate()
+                b.biogeme_parameters.set_value('max_iterations', 200)
+                b.biogeme_parameters.set_value('save_iterations', False)
+                est_ = {n_: float(v_) for n_, v_ in r_.get_beta_values().items()}
+                want_, _, _ = self.ref_ll({n_: est_[n_] for n_ in self.names}, rec['table'])
+                self._cmp('quick_estimate stopped early on an object that had found a better point before: reported log likelihood '
+                          'vs the likelihood at the returned estimates', float(r_.data.logLike), want_, rel=1e-7, oracle='I04.sum')
+                for f_ in ('__m.iter',):
+                    if os.path.exists(f_):
+                        os.remove(f_)
             elif kind == 'H_CHANGE_INIT':
                 # the log likelihood "at the starting values" follows the starting values
                 b.calculate_init_likelihood()
